@@ -100,6 +100,14 @@ def instances(tier, rng):
             for prim in (False, True):
                 add("%s/vars/ac%d/pr%d" % (nm, acyclic, prim), form="graph", n=n, edges=es, mode="vars",
                     acyclic=acyclic, primitive=prim)
+    # the same graphs with their edges stored in the other direction (add_edge(v, u)): the constraint is about undirected graphs
+    from ._ea_common import orient
+    for nm, n, es in gl:
+        if es and n <= 5:
+            for how in ("rev", "alt"):
+                for acyclic in (False, True):
+                    add("%s/vars/ac%d/pr0/%s" % (nm, acyclic, how), form="graph", n=n, edges=orient(es, how), mode="vars", acyclic=acyclic,
+                        primitive=False)
     # histories: the Graph object was used (and its line graph taken) before its last edges were added
     for nm, n, es in gl:
         if len(es) >= 2 and n <= 6:
@@ -111,7 +119,7 @@ def instances(tier, rng):
     for nm, n, es in sub:
         for mode in ("neg", "and", "xor", "mixed"):
             for acyclic in (False, True):
-                for prim in ((False,) if tier == "quick" else (False, True)):
+                for prim in ((False, True) if (mode == "mixed" or tier != "quick") else (False,)):
                     for consts in (("vTFe", "Tvev") if mode == "mixed" else ("v",)):
                         add("%s/%s%s/ac%d/pr%d" % (nm, mode, consts if mode == "mixed" else "", acyclic, prim),
                             form="array1d" if mode == "and" else "graph", n=n, edges=es, mode=mode, consts=consts,
